@@ -628,6 +628,7 @@ type Engine struct {
 	neverWritten map[*ssa.Global]bool
 	constMaps map[*ssa.Global]*constMap
 	ifConvert bool
+	reachAntecedents bool // thorough tier: audit that the antecedent of every `A ==> B` postcondition is reachable
 }
 
 func (e *Engine) closedWorld(t types.Type) []types.Type {
